@@ -145,7 +145,7 @@ theorem composite_limits_spec (gs : List Glyph) (rank : Nat → Nat) (fuel : Nat
     intro j gi hj hn
     have hjl : j < gs.length := by
       have := (List.getElem?_eq_some_iff.1 hj).1
-      rw [hI.len] at this; omega
+      rw [hI.len] at this; simpa using this
     exact (hpending j).2 ⟨hjl, hI.unknownComposite j gi hj hn⟩
   obtain ⟨l, hl, hfin, hatt⟩ := loop_spec hA fuel hfuel' pending.length pending rfl _ _ hI hvalid hunk
   refine ⟨l, hl, ?_, ?_, ?_⟩
@@ -168,6 +168,86 @@ theorem composite_limits_spec (gs : List Glyph) (rank : Nat → Nat) (fuel : Nat
     · exact Or.inr h
     · left; simp only [composites, List.mem_map, List.mem_filter, List.mem_range]
       exact ⟨gid, ⟨by simpa [g] using hlt, hc⟩, h⟩
+
+/-- The code as it is now (range-checked, /repo 944e88e): when no composite's resolved totals leave the
+    u16 range, `update_composite_limits` returns `Ok` with exactly the maxima of the specification
+    (no saturation, no recorded overflow), for every pending order. -/
+theorem composite_limits_checked (gs : List Glyph) (rank : Nat → Nat) (fuel : Nat) (pending : List Nat)
+    (hA : Acyclic (gs.map (·.shape)) rank)
+    (hfuel : ∀ gid, gid < gs.length → rank gid < fuel)
+    (hpending : ∀ gid, gid ∈ pending ↔ (gid < gs.length ∧ isComposite (gs.map (·.shape)) gid = true))
+    (hfit : ∀ gid, gid < gs.length → isComposite (gs.map (·.shape)) gid = true →
+      specPoints (gs.map (·.shape)) fuel gid ≤ 65535 ∧ specContours (gs.map (·.shape)) fuel gid ≤ 65535 ∧
+      specDepth (gs.map (·.shape)) fuel gid ≤ 65535) :
+    let g := gs.map (·.shape)
+    let composites := (List.range gs.length).filter (isComposite g)
+    ∃ l, updateCompositeLimitsC (maxBuilderOf gs) pending = .ok l ∧
+      IsMaxNat l.maxPoints (composites.map (specPoints g fuel)) ∧
+      IsMaxNat l.maxContours (composites.map (specContours g fuel)) ∧
+      IsMaxNat l.maxDepth (composites.map (specDepth g fuel)) := by
+  intro g composites
+  obtain ⟨l, hl, hspec⟩ := composite_limits_spec gs rank fuel pending hA hfuel hpending
+  refine ⟨l, ?_, hspec⟩
+  have hfuel' : ∀ gid, gid < g.length → rank gid < fuel := fun gid h => hfuel gid (by simpa [g] using h)
+  have hB : Bounded g fuel := fun gid hlt hc => hfit gid (by simpa [g] using hlt) hc
+  have hI := Inv_initial gs rank fuel hfuel
+  have hvalid : ∀ gid ∈ pending, isComposite g gid = true := fun gid h => ((hpending gid).1 h).2
+  have hsim := loopC_sim hA fuel hfuel' hB false pending.length pending rfl _ _ hI hvalid
+  unfold updateCompositeLimits at hl
+  unfold updateCompositeLimitsC
+  rw [hsim, hl]
+  rfl
+
+/-- The maxp part of `MetricAndLimitWork::exec` as it is now: with at most 65535 glyphs, per-glyph counts
+    within u16 and composite totals within u16 it returns `Ok` and the composite fields are the maxima
+    of the recursive specification. (Outside these hypotheses the code returns `Err(OutOfBounds)`; that
+    direction is checked by the correspondence stream, and is property C19's.) -/
+theorem maxp_checked_spec (gs : List Glyph) (rank : Nat → Nat) (fuel : Nat)
+    (hA : Acyclic (gs.map (·.shape)) rank)
+    (hfuel : ∀ gid, gid < gs.length → rank gid < fuel)
+    (hn : gs.length ≤ 65535)
+    (hcounts : ∀ g ∈ gs, shapeCountsFit g.shape = true)
+    (hfit : ∀ gid, gid < gs.length → isComposite (gs.map (·.shape)) gid = true →
+      specPoints (gs.map (·.shape)) fuel gid ≤ 65535 ∧ specContours (gs.map (·.shape)) fuel gid ≤ 65535 ∧
+      specDepth (gs.map (·.shape)) fuel gid ≤ 65535) :
+    let g := gs.map (·.shape)
+    let composites := (List.range gs.length).filter (isComposite g)
+    ∃ m, buildMaxpC gs = .ok m ∧ m.numGlyphs = gs.length ∧
+      m.maxPoints = (maxBuilderOf gs).maxPoints ∧ m.maxContours = (maxBuilderOf gs).maxContours ∧
+      m.maxComponentElements = (maxBuilderOf gs).maxComponentElements ∧
+      IsMaxNat m.maxCompositePoints (composites.map (specPoints g fuel)) ∧
+      IsMaxNat m.maxCompositeContours (composites.map (specContours g fuel)) ∧
+      IsMaxNat m.maxComponentDepth (composites.map (specDepth g fuel)) := by
+  intro g composites
+  obtain ⟨l, hl, h1, h2, h3⟩ := composite_limits_checked gs rank fuel
+    (compositeGids (maxBuilderOf gs).glyphInfo) hA hfuel (mem_compositeGids_of_shapes gs) hfit
+  have hall : gs.all (fun g => shapeCountsFit g.shape) = true := List.all_eq_true.2 hcounts
+  unfold buildMaxpC
+  simp only [hall, if_true, hl, hn]
+  exact ⟨_, rfl, rfl, rfl, rfl, rfl, h1, h2, h3⟩
+
+/-- hmtx/vmtx advances as the code computes them now: OpenType rounding of the source value, accepted
+    exactly when it fits u16 (otherwise `Err(OutOfBounds)`, no clamping). -/
+theorem advance_checked_spec (w : Rat) :
+    (∀ a, advanceOfWidth w = some a → (a : Int) = otRound w ∧ a ≤ 65535) ∧
+    (advanceOfWidth w = none ↔ (otRound w < 0 ∨ 65535 < otRound w)) := by
+  unfold advanceOfWidth
+  simp only
+  constructor
+  · intro a h
+    split at h
+    · rename_i hc
+      simp only [Option.some.injEq] at h
+      subst h
+      omega
+    · cases h
+  · constructor
+    · intro h
+      split at h
+      · cases h
+      · rename_i hc; omega
+    · intro h
+      rw [if_neg (by omega)]
 
 /-- maxPoints / maxContours / maxComponentElements are the maxima over the glyphs of the per-glyph point
     count, contour count and component count (no narrowing in the model: `as u16` is C19's). -/
@@ -324,7 +404,7 @@ theorem loca_format_matches (sizes : List Nat) (hfit : sizes.sum < 4294967296) :
 /-- `x_avg_char_width` reads the *compressed* hmtx (long metrics + a count of trailing glyphs sharing the
     last advance); its (count, total) are exactly the number and sum of the non-zero advances of *all*
     glyphs. -/
-theorem avg_width_spec (gs : List GlyphMetric) :
+theorem avg_count_total_spec (gs : List GlyphMetric) :
     avgCountTotal (buildMetrics gs).longMetrics gs.length =
       ((nonZero (gs.map (·.advance))).length, (nonZero (gs.map (·.advance))).sum) := by
   obtain ⟨h1, h2, _⟩ := hmtx_expands_to_input gs
@@ -332,11 +412,26 @@ theorem avg_width_spec (gs : List GlyphMetric) :
   rw [h2, h1] at this
   simpa [List.map_map, Function.comp_def] using this
 
-/-- The full statement one wants: xAvgCharWidth = OpenType rounding of the mean non-zero advance
-    (saturated to i16). It is FALSE of the code, which divides in binary32. -/
-def AvgWidthFullStatement : Prop :=
-  ∀ gs : List GlyphMetric,
+/-- OS/2.xAvgCharWidth of the code as it is (integer arithmetic since /repo d188b11), for every glyph
+    list: the OpenType rounding of the mean of the non-zero advances of all glyphs (0 if there is none),
+    saturated to i16. -/
+theorem avg_width_spec (gs : List GlyphMetric) :
     xAvgCharWidth (buildMetrics gs).longMetrics gs.length =
+      satI16 (avgOfExact (nonZero (gs.map (·.advance))).length (nonZero (gs.map (·.advance))).sum) := by
+  unfold xAvgCharWidth
+  rw [avg_count_total_spec]
+  simp only
+  by_cases hc : (nonZero (gs.map (·.advance))).length = 0
+  · simp [avgOfInt, avgOfExact, hc, satI16]
+  · simp only [avgOfInt, avgOfExact, hc, if_false]
+    rw [otRound_div_eq _ _ (by omega)]
+
+/-! ### History: the binary32 division used until /repo d188b11 (finding F-C17-1, fixed) -/
+
+/-- The full statement for the OLD code. It was FALSE: the old code divided in binary32. -/
+def AvgWidthOldFullStatement : Prop :=
+  ∀ gs : List GlyphMetric,
+    avgWidthOld (buildMetrics gs).longMetrics gs.length =
       satI16 (avgOfExact (nonZero (gs.map (·.advance))).length (nonZero (gs.map (·.advance))).sum)
 
 theorem nonZero_length_le_sum (xs : List Nat) : (nonZero xs).length ≤ (nonZero xs).sum := by
@@ -349,40 +444,27 @@ theorem nonZero_length_le_sum (xs : List Nat) : (nonZero xs).length ≤ (nonZero
     · have : (x != 0) = true := by simp [hx]
       simp only [List.filter_cons, this, if_true, List.length_cons, List.sum_cons]; omega
 
-/-- …it holds whenever the advances sum to less than 2^22 (e.g. 4000 glyphs of width 1000). -/
-theorem avg_width_partial (gs : List GlyphMetric) (h : (nonZero (gs.map (·.advance))).sum < 2 ^ 22) :
-    xAvgCharWidth (buildMetrics gs).longMetrics gs.length =
+/-- …the old code was right whenever the advances summed to less than 2^22. -/
+theorem avg_width_old_partial (gs : List GlyphMetric) (h : (nonZero (gs.map (·.advance))).sum < 2 ^ 22) :
+    avgWidthOld (buildMetrics gs).longMetrics gs.length =
       satI16 (avgOfExact (nonZero (gs.map (·.advance))).length (nonZero (gs.map (·.advance))).sum) := by
-  unfold xAvgCharWidth
-  rw [avg_width_spec]
+  unfold avgWidthOld
+  rw [avg_count_total_spec]
   simp only
   by_cases hc : (nonZero (gs.map (·.advance))).length = 0
   · simp [avgOfF32, avgOfExact, hc, satI16]
   · rw [avgOfF32_exact _ _ (by omega) (nonZero_length_le_sum _) h]
     simp [avgOfExact, hc]
 
-/-- The repair proposed in /verif/fixes/C17-os2-avg.patch (integer arithmetic) satisfies the full
-    statement, for every glyph list. -/
-theorem avg_width_fixed_full (gs : List GlyphMetric) :
-    xAvgCharWidthFixed (buildMetrics gs).longMetrics gs.length =
-      satI16 (avgOfExact (nonZero (gs.map (·.advance))).length (nonZero (gs.map (·.advance))).sum) := by
-  unfold xAvgCharWidthFixed
-  rw [avg_width_spec]
-  simp only
-  by_cases hc : (nonZero (gs.map (·.advance))).length = 0
-  · simp [avgOfInt, avgOfExact, hc, satI16]
-  · simp only [avgOfInt, avgOfExact, hc, if_false]
-    rw [otRound_div_eq _ _ (by omega)]
-
-/-- 257 glyphs of advance 16384 and 256 of advance 16385: mean 16384.499…, the code answers 16385. -/
+/-- 257 glyphs of advance 16384 and 256 of advance 16385: mean 16384.499…, the old code answered 16385. -/
 def avgWitness : List GlyphMetric :=
   List.replicate 257 ⟨16384, 0, none⟩ ++ List.replicate 256 ⟨16385, 0, none⟩
 
-theorem avg_width_counterexample : ¬ AvgWidthFullStatement := by
+theorem avg_width_old_counterexample : ¬ AvgWidthOldFullStatement := by
   intro h
   have := h avgWitness
-  unfold xAvgCharWidth at this
-  rw [avg_width_spec] at this
+  unfold avgWidthOld at this
+  rw [avg_count_total_spec] at this
   have e1 : (nonZero (avgWitness.map (·.advance))).length = 513 := by decide +kernel
   have e2 : (nonZero (avgWitness.map (·.advance))).sum = 8405248 := by decide +kernel
   simp only [e1, e2] at this
@@ -390,6 +472,13 @@ theorem avg_width_counterexample : ¬ AvgWidthFullStatement := by
   have r : satI16 (avgOfExact 513 8405248) = 16384 := by decide +kernel
   rw [l, r] at this
   exact absurd this (by decide)
+
+/-- the current code on the old witness -/
+example : xAvgCharWidth (buildMetrics avgWitness).longMetrics avgWitness.length = 16384 := by
+  rw [avg_width_spec]
+  have e1 : (nonZero (avgWitness.map (·.advance))).length = 513 := by decide +kernel
+  have e2 : (nonZero (avgWitness.map (·.advance))).sum = 8405248 := by decide +kernel
+  rw [e1, e2]; decide +kernel
 
 /-- usFirstCharIndex / usLastCharIndex: least / greatest mapped codepoint, capped at 0xFFFF
     (for a non-empty codepoint set). -/
@@ -527,6 +616,9 @@ example : Acyclic (demoGlyphs.map (·.shape)) id := by
     | n + 3 => simp [demoGlyphs] at h
 
 example : buildMaxp demoGlyphs = some ⟨3, 4, 1, 12, 3, 2, 2⟩ := by decide +kernel
+example : buildMaxpC demoGlyphs = .ok ⟨3, 4, 1, 12, 3, 2, 2⟩ := by decide +kernel
+example : advanceOfWidth (131071 / 2) = none ∧ advanceOfWidth (-1/2) = some 0 ∧ advanceOfWidth (-1) = none := by
+  decide +kernel
 example : glyphBbox (demoGlyphs.map (·.shape)) 4 (.composite [⟨1, Affine.identity⟩, ⟨0, ⟨1,0,0,1,0,20⟩⟩])
     = some (some ⟨0, 0, 30, 30⟩) := by
   simp [glyphBbox, bboxOfComposite, demoGlyphs, Affine.mul, Affine.identity, Affine.apply, ptToRat, Rect.addPt,
@@ -548,10 +640,13 @@ end Fontc.C17
 #print axioms Fontc.C17.head_bbox_is_union
 #print axioms Fontc.C17.composite_bbox_covers
 #print axioms Fontc.C17.loca_format_matches
+#print axioms Fontc.C17.avg_count_total_spec
 #print axioms Fontc.C17.avg_width_spec
-#print axioms Fontc.C17.avg_width_partial
-#print axioms Fontc.C17.avg_width_counterexample
-#print axioms Fontc.C17.avg_width_fixed_full
+#print axioms Fontc.C17.avg_width_old_partial
+#print axioms Fontc.C17.avg_width_old_counterexample
+#print axioms Fontc.C17.composite_limits_checked
+#print axioms Fontc.C17.maxp_checked_spec
+#print axioms Fontc.C17.advance_checked_spec
 #print axioms Fontc.C17.first_last_char_spec
 #print axioms Fontc.C17.unicodeRanges_sorted_disjoint
 #print axioms Fontc.C17.unicode_range_spec
